@@ -59,6 +59,12 @@ def check_proofs(pid, vfiles, log):
 def parse_outs(res):
     """'ok n (len v...)*' -> list of lists of Fraction (or float for nan/inf); None if not ok"""
     if not res.startswith("ok"): return None
+    try:
+        return _parse_outs(res)
+    except (IndexError, ValueError):
+        return None          # truncated / malformed output (the harness crashed while printing): reported as a failure by the callers
+
+def _parse_outs(res):
     t = res.split(); n = int(t[1]); i = 2; outs = []
     for _ in range(n):
         ln = int(t[i]); i += 1; v = []
